@@ -86,15 +86,24 @@ def _engine():
     return Engine(pool, d, URL.create("capture")), dbapi
 
 
-def _deliver(eng, dbapi, stmt, opts):
+def _deliver(eng, dbapi, stmt, opts, how="connection"):
+    """how: where the map is given -- on the Connection, per execute() call, on the statement, or on an
+    engine-level execution_options() copy."""
     import sqlalchemy.exc as saexc
 
     del dbapi.log[:]
     try:
+        if opts is not None and how == "engine":
+            eng = eng.execution_options(schema_translate_map=opts)
         with eng.connect() as c:
-            if opts is not None:
-                c = c.execution_options(schema_translate_map=opts)
-            c.execute(stmt)
+            if opts is None or how == "engine":
+                c.execute(stmt)
+            elif how == "connection":
+                c.execution_options(schema_translate_map=opts).execute(stmt)
+            elif how == "execute":
+                c.execute(stmt, execution_options={"schema_translate_map": opts})
+            else:
+                c.execute(stmt.execution_options(schema_translate_map=opts))
     except (saexc.InvalidRequestError, saexc.CompileError, saexc.StatementError) as e:
         orig = getattr(e, "orig", None) if isinstance(e, saexc.StatementError) else e
         if isinstance(e, saexc.DBAPIError) or not isinstance(orig, (saexc.InvalidRequestError, saexc.CompileError)):
@@ -109,7 +118,7 @@ def _translated(schema, m):
     return schema
 
 
-def _history(shape: str, assign_i: int, map_codes: List[int]) -> bool:
+def _history(shape: str, assign_i: int, map_codes: List[int], how: str = "connection") -> bool:
     s1, s2 = ASSIGN[assign_i]
     md, t1, t2 = _tables(s1, s2)
     stmt = _stmt(shape, t1, t2)
@@ -119,7 +128,7 @@ def _history(shape: str, assign_i: int, map_codes: List[int]) -> bool:
     for step, mc in enumerate(map_codes):
         user_map = _m(MAPS[mc])
         snapshot = dict(user_map)
-        got = _deliver(eng, dbapi, stmt, user_map)
+        got = _deliver(eng, dbapi, stmt, user_map, how)
         if isinstance(got, tuple):
             # documented refusals: the None key appears/disappears relative to the map the cached
             # compilation was made with, or something maps to the (non-existent) default schema
@@ -138,14 +147,14 @@ def _history(shape: str, assign_i: int, map_codes: List[int]) -> bool:
     return True
 
 
-def h_history(shape: str, assign_i: int, third: str, code: int) -> bool:
+def h_history(shape: str, assign_i: int, third: str, how: str, code: int) -> bool:
     nm = len(MAPS)
     if third == "first":
         c = pick(code, nm * nm)
         f, g = c % nm, c // nm
-        return native(_history, shape, assign_i, [f, g, f])
+        return native(_history, shape, assign_i, [f, g, f], how)
     c = pick(code, nm * nm * nm)
-    return native(_history, shape, assign_i, [c % nm, (c // nm) % nm, c // (nm * nm)])
+    return native(_history, shape, assign_i, [c % nm, (c // nm) % nm, c // (nm * nm)], how)
 
 
 META = {
@@ -164,7 +173,9 @@ META = {
 
 def harnesses(tier: str) -> List[Harness]:
     third = "first" if tier == "quick" else "any"
-    sl = [dict(shape=s, assign_i=a, third=third) for s in SHAPES for a in range(len(ASSIGN))]
+    hows = ["connection", "execute", "statement", "engine"]
+    sl = [dict(shape=s, assign_i=a, third=third, how=(hows[(si + a) % 4] if tier == "quick" else h))
+          for si, s in enumerate(SHAPES) for a in range(len(ASSIGN)) for h in (hows if tier != "quick" else hows[:1])]
     return [Harness("history", h_history, sl, budget_s=200 if tier == "quick" else 1500)]
 
 
@@ -175,7 +186,7 @@ def classify(hname, args, rep):
         # the internal sentinel name for the None key collides with a schema / map key literally named "_none"
         return ("C16:_none-sentinel-collision:%s" % kind, exc[:400])
     s1, s2 = ASSIGN[args["assign_i"]]
-    return ("C16:%s:%s:%s" % (kind, args["shape"], "none-schema" if None in (s1, s2) else "named"), exc[:400])
+    return ("C16:%s:%s:%s:map-on-%s" % (kind, args["shape"], "none-schema" if None in (s1, s2) else "named", args.get("how", "connection")), exc[:400])
 
 
 def run(tier: str, seed: int):
